@@ -146,6 +146,44 @@ const U64_VALS: &[u64] = &[
     u64::MAX - 1,
     u64::MAX,
 ];
+/// 128-bit elements with every decimal digit structure a chunked renderer could get wrong: every power of ten,
+/// its neighbours, a small value right above it (zeros directly below a digit-group boundary), runs of 9s,
+/// sums of two distant powers, and the extremes
+fn u128_vals() -> Vec<u128> {
+    let mut v: Vec<u128> = vec![0, 1, u128::MAX, u128::MAX - 1, 1 << 64, (1 << 64) + 1, u64::MAX as u128];
+    let mut p: u128 = 1;
+    for k in 0..=38u32 {
+        v.extend([p, p - 1, p + 7]);
+        if k >= 9 {
+            v.push(p + 1_000_000_000 / 10);
+            v.push(3 * p + 100_000_007);
+        }
+        if k >= 19 {
+            v.push(p + 10_000_000_000_000_000_000 / 10);
+            v.push(p + 1_000_000_000_000_000_000);
+        }
+        if k < 38 {
+            p *= 10;
+        }
+    }
+    v.sort();
+    v.dedup();
+    v
+}
+
+fn i128_vals() -> Vec<i128> {
+    let mut v: Vec<i128> = vec![i128::MAX, i128::MIN, i128::MIN + 1, -1];
+    for u in u128_vals() {
+        if u <= i128::MAX as u128 {
+            v.push(u as i128);
+            v.push(-(u as i128));
+        }
+    }
+    v.sort();
+    v.dedup();
+    v
+}
+
 /// candidate tokens; the ones a whitespace-separated byte-oriented reader cannot represent are out of
 /// the round trip's domain and are skipped (and counted)
 const STR_CANDIDATES: &[&str] = &[
@@ -505,6 +543,22 @@ fn io_case<const D: usize>(dims: [usize; D], ty: &str, rot: usize, format_only: 
                 atom_io(dims, &d)
             }
         }
+        "u128" => {
+            let d = rotated(&u128_vals(), n, rot);
+            if format_only {
+                atom_format(dims, &d).map(|_| vec![])
+            } else {
+                atom_io(dims, &d)
+            }
+        }
+        "i128" => {
+            let d = rotated(&i128_vals(), n, rot);
+            if format_only {
+                atom_format(dims, &d).map(|_| vec![])
+            } else {
+                atom_io(dims, &d)
+            }
+        }
         "String" => {
             let d = rotated(&str_vals(), n, rot);
             if format_only {
@@ -520,10 +574,12 @@ fn io_list_len(ty: &str) -> usize {
     match ty {
         "i32" => I32_VALS.len(),
         "u64" => U64_VALS.len(),
+        "u128" => u128_vals().len(),
+        "i128" => i128_vals().len(),
         _ => str_vals().len(),
     }
 }
-const IO_TYPES: &[&str] = &["i32", "u64", "String"];
+const IO_TYPES: &[&str] = &["i32", "u64", "u128", "i128", "String"];
 
 /// equal shape and equal elements (built three different ways) must compare equal
 fn atom_eq_same<const D: usize>(dims: [usize; D]) -> Result<(), String> {
@@ -1156,12 +1212,12 @@ fn main() {
     run.cov("families", json!(FAMILIES));
     run.cov(
         "rule",
-        "every shape of rank 1..=4 with extents 1..=max_extent (ordered by rank, element count, lexicographic); per shape: every valid multi-index (odometer, last coordinate fastest; the k-th must address storage element k of from_vec(10,11,…)) for Index, get_index and a write through IndexMut; from_slice, new + one write per index, iter/iter_mut/into_iter; every index with exactly one coordinate set to extent, extent+1 or usize::MAX and all other coordinates over all valid values, for get_index, Index and IndexMut (must panic); data lengths 0, n-1, n+1 for from_vec/from_slice (must panic); every shape with extents 0..=max_extent containing a 0 for new, from_vec(empty), from_slice(empty), Tensor::read (must panic); write→Tensor::read round trip and text layout for i32, u64 and String elements with every rotation of a boundary value list; == for same shape same data, same shape one element changed (every position), and every unordered pair of distinct shapes of the same rank; copies: t.clone() for every shape and target.clone_from(&source) for every ORDERED pair of same-rank shapes (target of the same shape, of another shape with the same element count, with more elements, with fewer elements; the target holds 5000,5001,… before the call), the copy being examined like a constructed tensor: dims()/dim(i) are the source's, iter() and every valid index through Index and get_index give the row-major sequence, every index with one coordinate = its extent (others over all valid values) panics, copy == source both ways, write → Tensor::read with the source's shape gives the source back, a write through IndexMut at the last index changes exactly the last element. distinct_nontrivial = MEASURED number of distinct (shape, out-of-range index) cases whose flattened offset sum idx*stride is still inside the storage (aliasing is possible without the per-dimension check) + distinct (shape, valid index) cases whose row-major offset differs from the column-major offset (a stride-order error is observable)",
+        "every shape of rank 1..=4 with extents 1..=max_extent (ordered by rank, element count, lexicographic); per shape: every valid multi-index (odometer, last coordinate fastest; the k-th must address storage element k of from_vec(10,11,…)) for Index, get_index and a write through IndexMut; from_slice, new + one write per index, iter/iter_mut/into_iter; every index with exactly one coordinate set to extent, extent+1 or usize::MAX and all other coordinates over all valid values, for get_index, Index and IndexMut (must panic); data lengths 0, n-1, n+1 for from_vec/from_slice (must panic); every shape with extents 0..=max_extent containing a 0 for new, from_vec(empty), from_slice(empty), Tensor::read (must panic); write→Tensor::read round trip and text layout for i32, u64, u128, i128 and String elements with every rotation of a boundary value list (the 128-bit lists hold every power of ten with its neighbours and values with zeros directly below a digit-group boundary); == for same shape same data, same shape one element changed (every position), and every unordered pair of distinct shapes of the same rank; copies: t.clone() for every shape and target.clone_from(&source) for every ORDERED pair of same-rank shapes (target of the same shape, of another shape with the same element count, with more elements, with fewer elements; the target holds 5000,5001,… before the call), the copy being examined like a constructed tensor: dims()/dim(i) are the source's, iter() and every valid index through Index and get_index give the row-major sequence, every index with one coordinate = its extent (others over all valid values) panics, copy == source both ways, write → Tensor::read with the source's shape gives the source back, a write through IndexMut at the last index changes exactly the last element. distinct_nontrivial = MEASURED number of distinct (shape, out-of-range index) cases whose flattened offset sum idx*stride is still inside the storage (aliasing is possible without the per-dimension check) + distinct (shape, valid index) cases whose row-major offset differs from the column-major offset (a stride-order error is observable)",
     );
     run.cov("exhaustive", true);
     run.cov(
         "io_values_note",
-        "the IO round trip cannot enumerate all element values: it uses boundary lists (16 i32 incl. MIN/MAX/negatives, 12 u64 incl. MAX and 10^19, 11 ASCII tokens), every rotation of each list over every shape, so every listed value is written at every position of every shape",
+        "the IO round trip cannot enumerate all element values: it uses boundary lists (16 i32 incl. MIN/MAX/negatives, 12 u64 incl. MAX and 10^19, about 190 u128 and 370 i128 values with every decimal digit structure, 11 ASCII tokens), every rotation of each list over every shape, so every listed value is written at every position of every shape",
     );
 
     // samples: rotate by VERIF_SEED
